@@ -40,6 +40,10 @@ int file_write(const char *filename, AsmContext *asm_context, int file_type)
 
   if (out == NULL) { return -1; }
 
+  // Without a CPU directive the assembler runs as the first entry (MSP430).
+  const int cpu_index =
+    asm_context->cpu_list_index == -1 ? 0 : asm_context->cpu_list_index;
+
   if (file_type == FILE_TYPE_HEX)
   {
     write_hex(&asm_context->memory, out);
@@ -55,7 +59,7 @@ int file_write(const char *filename, AsmContext *asm_context, int file_type)
     write_srec(
       &asm_context->memory,
       out,
-      cpu_list[asm_context->cpu_list_index].srec_size);
+      cpu_list[cpu_index].srec_size);
   }
     else
   if (file_type == FILE_TYPE_ELF)
@@ -66,7 +70,7 @@ int file_write(const char *filename, AsmContext *asm_context, int file_type)
       &asm_context->symbols,
       asm_context->tokens.filename,
       asm_context->cpu_type,
-      cpu_list[asm_context->cpu_list_index].alignment);
+      cpu_list[cpu_index].alignment);
   }
     else
   if (file_type == FILE_TYPE_WDC)
@@ -87,7 +91,7 @@ int file_write(const char *filename, AsmContext *asm_context, int file_type)
       &asm_context->symbols,
       asm_context->tokens.filename,
       asm_context->cpu_type,
-      cpu_list[asm_context->cpu_list_index].alignment);
+      cpu_list[cpu_index].alignment);
   }
     else
   if (file_type == FILE_TYPE_UF2)
